@@ -86,6 +86,14 @@ def install(it, dom):
 
 
 # ------------------------------------------------------------------------------------------------ invariant
+def zr(v):
+    """like zreal, with the float infinities as (unconstrained) constants"""
+    if isinstance(v, float) and v in (INF, -INF):
+        cst = z3.Const("FLOAT_INF", R)
+        return cst if v > 0 else uf("fneg", R, R)(cst)
+    return zreal(v)
+
+
 def ls_inv(it, env, phase):
     run = it.dom.run
     c = run.ghost["ls"]
@@ -103,10 +111,10 @@ def ls_inv(it, env, phase):
     add("task_is_START_or_FG", is_start or (isinstance(task, SymBytes) and run.entails(task.tag == 0)), ("C11",))
     add("START_iff_first_trial", (zint(_iter) == 0) if is_start else (zint(_iter) >= 1), ("C11",))
     if best_stp is None:
-        add("best_none_means_no_decrease", zreal(best_f) == c["f0"], ("C11", "C03"))
+        add("best_none_means_no_decrease", zr(best_f) == c["f0"], ("C11", "C03"))
     else:
         tp = trial(c["x0v"], c["dv"], best_stp, c["lbv"], c["ubv"])
-        add("best_is_lowest_trial", z3.And(zreal(best_f) == Fs(tp, sf.f["scaling_factor"]), zreal(best_f) < c["f0"],
+        add("best_is_lowest_trial", z3.And(zr(best_f) == Fs(tp, sf.f["scaling_factor"]), zr(best_f) < c["f0"],
                                            zreal(best_stp) >= 0, zreal(best_stp) <= c["stpmax"]), ("C11", "C03"))
     for lab, f in sf_inv(run, sf, c["cfg"], c["base_f"], c["base_g"]):
         add("sf::" + lab, f, ("C11", "C05"))
@@ -135,8 +143,13 @@ def ls_havoc(it, env):
         setv(nm, Sym(run.fresh(nm, R)))
     # `steplength` is bound by the first trial: unbound exactly in the START state
     setv("steplength", Poison("steplength") if k in (0, 2) else Sym(run.fresh("steplength", R)))
-    for nm in ("f0", "dphi0"):
-        setv(nm, Poison(nm))
+    # f0 / dphi0 are re-bound by every `_iterate` call: the entry values in the START state, arbitrary afterwards
+    if k in (0, 2):
+        setv("f0", Sym(c["f0"]))
+        setv("dphi0", env.get("dphi0"))
+    else:
+        setv("f0", Sym(run.fresh("f0_loop", R)))
+        setv("dphi0", Sym(run.fresh("dphi0_loop", R)))
     sf = env.get("sf")
     sf_havoc(run, sf, c["cfg"])
     sf.f["scaling_factor"] = Sym(c["s"])
